@@ -160,9 +160,9 @@ def unit_grid(tier):
 # ---- (ii) whole datasets ---------------------------------------------------------------------
 
 @st.composite
-def dataset_cases(draw):
-    conv = draw(st.sampled_from(S.ALL_CONVS))
-    spec = {"conv": conv, "geom": draw(S.geometry(conv, max_n=3, max_j=2, max_i=2,
+def dataset_cases(draw, meshes_as_on_disk=False):
+    conv = "ugrid" if meshes_as_on_disk else draw(st.sampled_from(list(S.ALL_CONVS) + ["ugrid", "ugrid"]))
+    spec = {"conv": conv, "geom": draw(S.geometry(conv, max_n=3, max_j=2, max_i=3 if meshes_as_on_disk else 2,
                                                    allow_bowtie=False))}
     u = draw(unit_cases())
     u["calendar"] = None
@@ -193,7 +193,7 @@ def dataset_cases(draw):
             var["nan"] = [0]
         variables.append(var)
     spec["vars"] = variables
-    spec["mode"] = "decoded"
+    spec["mode"] = "raw" if meshes_as_on_disk else draw(st.sampled_from(["decoded", "decoded", "raw"]))
     return {"spec": spec, "units": u, "route": draw(st.sampled_from(["ems", "ems", "utils"])),
             "scalar_time": draw(st.integers(0, 3)) == 0,
             "retime": draw(st.integers(0, 2)) == 0}
@@ -207,14 +207,14 @@ def check_dataset(case, ctx):
         warnings.simplefilter("ignore")
         ds = specs.build(spec)
         tname = spec["time"]["name"]
-        if case.get("scalar_time"):
+        if case.get("scalar_time") and spec["mode"] != "raw":
             # a single time step selected out of the series: the time coordinate is a scalar
             ds = ds.isel({spec["time"]["dim"]: 0})
         retimed = False
         shift = {"days": numpy.timedelta64(6, "h"), "hours": numpy.timedelta64(30, "m"),
                  "minutes": numpy.timedelta64(15, "s")}.get(case["units"]["period"])
         whole = all(float(v).is_integer() for v in spec["time"]["values"])
-        if case.get("retime") and shift is not None and whole:
+        if case.get("retime") and shift is not None and whole and spec["mode"] != "raw":
             # the series was moved by a fraction of its unit after it was read (resampled,
             # re-centred ...) while the variable still carries the encoding it came with, now
             # asking for integers: the requested unit cannot hold the instants any more and the
@@ -254,26 +254,34 @@ def check_dataset(case, ctx):
             (a is None and b is None) or (a is not None and b is not None and a.equals_exact(b, 0))
             for a, b in zip(after, before)), "C17.polygons_identical", f"{what}: polygons changed")
         # values
+        # a dataset held as it sits on disk (numeric time, fill values as attributes) is
+        # compared through the same CF decoding that reopening the written file applies
+        meaning = xarray.decode_cf(ds) if spec["mode"] == "raw" else ds
         for name in ds.variables:
             ctx.check(name in reopened.variables, "C17.values_identical",
                       lambda: f"{what}: variable {name} is missing after the round trip")
-            a, b = ds[name].values, reopened[name].values
+            a, b = meaning[name].values, reopened[name].values
             same = a.shape == b.shape and (
                 numpy.array_equal(a, b, equal_nan=True) if a.dtype.kind in "fc" or b.dtype.kind in "fc"
                 else numpy.array_equal(a, b))
             clause = "C17.time_instants" if name == tname else "C17.values_identical"
             ctx.check(same, clause, lambda: f"{what}: {name} changed: {a.tolist()} -> {b.tolist()}")
-        # time units attribute
-        parsed = parse_ems(raw_units)
-        ctx.check(parsed is not None, "C17.units_form",
-                  lambda: f"{what}: units written to the file: {raw_units!r}")
-        want = reference_instant(case["units"])
-        # (a re-timed series may legitimately be written in a finer unit: there the instants
-        # themselves, compared above, are the evidence)
-        ctx.check(retimed or (parsed[1] == want and parsed[0] == case["units"]["period"]),
-                  "C17.units_same_instant",
-                  lambda: f"{what}: file says {raw_units!r} = {parsed[0]} since {parsed[1]} UTC; the "
-                  f"source means {case['units']['period']} since {want} UTC")
+        # time units attribute.  (By the documented rule a time coordinate is a variable xarray
+        # has decoded to datetimes: an undecoded dataset saved through the accessor has none, so
+        # nothing is promised about its units; the utils route names the variable itself.)
+        if spec["mode"] == "raw" and case["route"] == "ems":
+            ctx.label("undecoded_time_via_accessor:units_not_asserted")
+        else:
+            parsed = parse_ems(raw_units)
+            ctx.check(parsed is not None, "C17.units_form",
+                      lambda: f"{what}: units written to the file: {raw_units!r}")
+            want = reference_instant(case["units"])
+            # (a re-timed series may legitimately be written in a finer unit: there the instants
+            # themselves, compared above, are the evidence)
+            ctx.check(retimed or (parsed[1] == want and parsed[0] == case["units"]["period"]),
+                      "C17.units_same_instant",
+                      lambda: f"{what}: file says {raw_units!r} = {parsed[0]} since {parsed[1]} UTC; the "
+                      f"source means {case['units']['period']} since {want} UTC")
         # fill values
         for name, has_fill in fill_attrs.items():
             if name not in ds.variables:
@@ -287,7 +295,8 @@ def check_dataset(case, ctx):
     ctx.label("route:" + case["route"])
     ctx.label("time_dtype:" + spec["time"]["dtype"])
     ctx.label(f"calendar:{spec['time'].get('calendar')}")
-    if case.get("scalar_time"):
+    ctx.label("mode:" + spec["mode"])
+    if case.get("scalar_time") and spec["mode"] != "raw":
         ctx.label("scalar_time_coordinate")
     if retimed:
         ctx.label("retimed_series_with_integer_encoding")
@@ -296,7 +305,11 @@ def check_dataset(case, ctx):
 
 SUBS = [
     Sub("time_units", lambda tier: unit_cases(), check_units, quick=1500, thorough=20000),
-    Sub("datasets", lambda tier: dataset_cases(), check_dataset, quick=40, thorough=300),
+    Sub("datasets", lambda tier: dataset_cases(), check_dataset, quick=100, thorough=500),
+    # meshes built in memory the way they sit on disk (integer tables, fill value as an attribute,
+    # any index base): the saved file is decoded when reopened, the source is not
+    Sub("meshes_held_as_on_disk", lambda tier: dataset_cases(meshes_as_on_disk=True), check_dataset,
+        quick=40, thorough=300),
 ]
 ENUMS = [Enum("offset_grid", unit_grid, check_units, exhaustive_in=("quick", "thorough"))]
 MATCHERS = {}
